@@ -433,5 +433,220 @@ impl ProtocolState {
 //@end
 }
 
+
+// =====================================================================================================
+// inbound packet handlers (C01, C04, C05, C11, C14)
+// =====================================================================================================
+
+pub open spec fn accepts_acks(st: ProtocolStateType) -> bool {
+    st != ProtocolStateType::Disconnected && st != ProtocolStateType::PendingConnack
+}
+
+// an ack that completes nothing changes nothing (mismatched / unknown / wrong-type acks)
+pub open spec fn ack_rejected(pre: ProtocolState, post: ProtocolState) -> bool {
+    tables_unchanged(pre, post) && completion_frame(pre, post) && post.state == pre.state
+        && post.next_ping_timepoint == pre.next_ping_timepoint && post.slow_start_ack_count == pre.slow_start_ack_count
+}
+
+
+impl ProtocolState {
+//@fn gneiss-mqtt/src/protocol.rs ProtocolState::is_operation_publish_of_qos props=C01
+    ensures r == (self.operations@.contains_key(operation_id) && is_qos_publish(*self.operations@[operation_id].packet, qos)),
+//@end
+
+//@fn gneiss-mqtt/src/protocol.rs ProtocolState::handle_puback props=C01,C11,C06
+    requires old(self).wf(), *packet is Puback,
+    ensures final(self).wf(),
+        completion_frame(*old(self), *final(self)),
+        ({
+            let pid = packet->Puback_0.packet_id;
+            let pre = *old(self);
+            let hit = accepts_acks(pre.state) && pre.pending_publish_operations@.contains_key(pid)
+                && is_qos_publish(*pre.operations@[pre.pending_publish_operations@[pid]].packet, QualityOfService::AtLeastOnce);
+            &&& hit ==> r is Ok && removed_exactly(pre, *final(self), pre.pending_publish_operations@[pid]) && final(self).state == pre.state
+            &&& !hit ==> r is Err && ack_rejected(pre, *final(self))
+        }),
+        old(self).cur_ok() && (old(self).current_operation matches Some(c) ==> !(old(self).pending_publish_operations@.contains_key(packet->Puback_0.packet_id) && old(self).pending_publish_operations@[packet->Puback_0.packet_id] == c)) ==> final(self).cur_ok(),
+//@end
+
+//@fn gneiss-mqtt/src/protocol.rs ProtocolState::handle_pubcomp props=C01,C04,C11,C06
+    requires old(self).wf(), *packet is Pubcomp,
+    ensures final(self).wf(),
+        completion_frame(*old(self), *final(self)),
+        ({
+            let pid = packet->Pubcomp_0.packet_id;
+            let pre = *old(self);
+            let hit = accepts_acks(pre.state) && pre.pending_publish_operations@.contains_key(pid)
+                && is_qos_publish(*pre.operations@[pre.pending_publish_operations@[pid]].packet, QualityOfService::ExactlyOnce)
+                && pre.operations@[pre.pending_publish_operations@[pid]].qos2_pubrel is Some;      // PUBCOMP only after PUBREC was seen
+            &&& hit ==> r is Ok && removed_exactly(pre, *final(self), pre.pending_publish_operations@[pid]) && final(self).state == pre.state
+            &&& !hit ==> r is Err && ack_rejected(pre, *final(self))
+        }),
+//@@at before "Qos2Response::Pubcomp(pubcomp)"
+        proof { assert(self.operations@ =~= old(self).operations@); }
+//@@at before "received a pubcomp before sending a pubrel @nth=1/2"
+        proof { assert(self.operations@ =~= old(self).operations@); }
+//@@at before "received a pubcomp before sending a pubrel @nth=2/2"
+        proof { assert(self.operations@ =~= old(self).operations@); }
+//@end
+
+//@fn gneiss-mqtt/src/protocol.rs ProtocolState::handle_suback props=C01,C11,C06
+    requires old(self).wf(), *packet is Suback,
+    ensures final(self).wf(),
+        completion_frame(*old(self), *final(self)),
+        ({
+            let suback = packet->Suback_0;
+            let pid = suback.packet_id;
+            let pre = *old(self);
+            let hit = accepts_acks(pre.state) && pre.pending_non_publish_operations@.contains_key(pid)
+                && (*pre.operations@[pre.pending_non_publish_operations@[pid]].packet matches MqttPacket::Subscribe(sub)
+                    && sub.subscriptions@.len() == suback.reason_codes@.len());           // one reason code per requested entry
+            &&& hit ==> r is Ok && removed_exactly(pre, *final(self), pre.pending_non_publish_operations@[pid]) && final(self).state == pre.state
+            &&& !hit ==> r is Err && ack_rejected(pre, *final(self))
+        }),
+//@end
+
+//@fn gneiss-mqtt/src/protocol.rs ProtocolState::handle_unsuback props=C01,C11,C06
+    requires old(self).wf(), *packet is Unsuback,
+    ensures final(self).wf(),
+        completion_frame(*old(self), *final(self)),
+        ({
+            let unsuback = packet->Unsuback_0;
+            let pid = unsuback.packet_id;
+            let pre = *old(self);
+            let hit = accepts_acks(pre.state) && pre.pending_non_publish_operations@.contains_key(pid)
+                && (*pre.operations@[pre.pending_non_publish_operations@[pid]].packet matches MqttPacket::Unsubscribe(unsub)
+                    && (pre.protocol_version == ProtocolVersion::Mqtt311 || unsub.topic_filters@.len() == unsuback.reason_codes@.len()));
+            &&& hit ==> r is Ok && removed_exactly(pre, *final(self), pre.pending_non_publish_operations@[pid]) && final(self).state == pre.state
+            &&& !hit ==> r is Err && ack_rejected(pre, *final(self))
+        }),
+//@end
+
+//@fn gneiss-mqtt/src/protocol.rs ProtocolState::handle_pubrec props=C01,C04,C11,C06
+    requires old(self).wf(), *packet is Pubrec,
+    ensures final(self).wf(),
+        ({
+            let pubrec = packet->Pubrec_0;
+            let pid = pubrec.packet_id;
+            let pre = *old(self);
+            let post = *final(self);
+            let hit = accepts_acks(pre.state) && pre.pending_publish_operations@.contains_key(pid)
+                && is_qos_publish(*pre.operations@[pre.pending_publish_operations@[pid]].packet, QualityOfService::ExactlyOnce);
+            let oid = pre.pending_publish_operations@[pid];
+            // failing PUBREC: the operation completes with it
+            &&& hit && pubrec.reason_code as u8 >= 128 ==> r is Ok && removed_exactly(pre, post, oid) && completion_frame(pre, post) && post.state == pre.state
+            // success PUBREC: a PUBREL with that identifier is queued (at the back of the high-priority queue),
+            // the publish stays un-completed and will never be sent again as a PUBLISH
+            &&& hit && (pubrec.reason_code as u8) < 128 ==> {
+                    &&& r is Ok
+                    &&& post.operations@.dom() =~= pre.operations@.dom()
+                    &&& (forall|k: u64| k != oid && pre.operations@.contains_key(k) ==> post.operations@[k] == pre.operations@[k])
+                    &&& (post.operations@[oid].qos2_pubrel matches Some(rel) && (*rel matches MqttPacket::Pubrel(p) && p.packet_id == pid && p.reason_string is None && p.user_properties is None))
+                    &&& post.operations@[oid] == (ClientOperation { qos2_pubrel: post.operations@[oid].qos2_pubrel, ..pre.operations@[oid] })
+                    &&& post.high_priority_operation_queue@ == pre.high_priority_operation_queue@.push(oid)
+                    &&& post.pending_publish_operations@ == pre.pending_publish_operations@
+                    &&& post.allocated_packet_ids@ == pre.allocated_packet_ids@
+                    &&& post.pending_non_publish_operations@ == pre.pending_non_publish_operations@
+                    &&& post.user_operation_queue@ == pre.user_operation_queue@ && post.resubmit_operation_queue@ == pre.resubmit_operation_queue@
+                    &&& post.state == pre.state && post.current_operation == pre.current_operation
+                }
+            &&& !hit ==> r is Err && ack_rejected(pre, post)
+        }),
+//@@at after "self.enqueue_operation(*operation_id, ProtocolQueueType::HighPriority, ProtocolEnqueuePosition::Back);"
+        proof {
+            lemma_wf_op_update(*old(self), *self, old(self).pending_publish_operations@[packet->Pubrec_0.packet_id]);
+        }
+//@@at before "Qos2Response::Pubrec(pubrec)"
+        proof { assert(self.operations@ =~= old(self).operations@); }
+//@@at before "pubrec received for a pending operation that is not a qos2 publish"
+        proof { assert(self.operations@ =~= old(self).operations@); }
+//@@at before "pubrec received for a pending operation that is not a publish"
+        proof { assert(self.operations@ =~= old(self).operations@); }
+//@end
+
+//@fn gneiss-mqtt/src/protocol.rs ProtocolState::handle_pubrel props=C05,C11
+    requires old(self).wf(), *packet is Pubrel, opid_budget(*old(self), 1),
+    ensures final(self).wf(),
+        ({
+            let pid = packet->Pubrel_0.packet_id;
+            let pre = *old(self);
+            let post = *final(self);
+            &&& !accepts_acks(pre.state) ==> r is Err && post == pre
+            &&& accepts_acks(pre.state) ==> {
+                    let oid = pre.next_operation_id;
+                    &&& r is Ok
+                    // the identifier is released ...
+                    &&& post.qos2_incomplete_incoming_publishes@ == pre.qos2_incomplete_incoming_publishes@.remove(pid)
+                    // ... and exactly one PUBCOMP for the same identifier is queued behind every earlier ack
+                    &&& post.operations@ == pre.operations@.insert(oid, fresh_operation(oid, MqttPacket::Pubcomp(PubcompPacket { packet_id: pid, reason_code: PubcompReasonCode::Success, reason_string: None, user_properties: None }), None))
+                    &&& post.high_priority_operation_queue@ == pre.high_priority_operation_queue@.push(oid)
+                    &&& post.next_operation_id == oid + 1
+                    &&& post.state == pre.state && post.user_operation_queue@ == pre.user_operation_queue@ && post.resubmit_operation_queue@ == pre.resubmit_operation_queue@
+                    &&& post.allocated_packet_ids@ == pre.allocated_packet_ids@ && post.pending_publish_operations@ == pre.pending_publish_operations@
+                    &&& post.pending_non_publish_operations@ == pre.pending_non_publish_operations@ && post.current_operation == pre.current_operation
+                }
+        }),
+//@end
+
+//@fn gneiss-mqtt/src/protocol.rs ProtocolState::handle_publish props=C05,C11
+    requires old(self).wf(), *packet is Publish, opid_budget(*old(self), 1),
+    ensures final(self).wf(),
+        final(context).current_time == old(context).current_time,
+        ({
+            let publish = packet->Publish_0;
+            let pid = publish.packet_id;
+            let pre = *old(self);
+            let post = *final(self);
+            let ev_pre = old(context).packet_events@;
+            let ev_post = final(context).packet_events@;
+            let oid = pre.next_operation_id;
+            let queued_ack = |ack: MqttPacket| {
+                &&& post.operations@ == pre.operations@.insert(oid, fresh_operation(oid, ack, None))
+                &&& post.high_priority_operation_queue@ == pre.high_priority_operation_queue@.push(oid)
+                &&& post.next_operation_id == oid + 1
+            };
+            let rest_same = post.state == pre.state && post.user_operation_queue@ == pre.user_operation_queue@ && post.resubmit_operation_queue@ == pre.resubmit_operation_queue@
+                    && post.allocated_packet_ids@ == pre.allocated_packet_ids@ && post.pending_publish_operations@ == pre.pending_publish_operations@
+                    && post.pending_non_publish_operations@ == pre.pending_non_publish_operations@ && post.current_operation == pre.current_operation;
+            &&& !accepts_acks(pre.state) ==> r is Err && post == pre && ev_post == ev_pre
+            &&& accepts_acks(pre.state) ==> r is Ok && rest_same
+            // QoS 0: surfaced, nothing queued
+            &&& accepts_acks(pre.state) && publish.qos == QualityOfService::AtMostOnce ==> post == pre && ev_post == ev_pre.push(PacketEvent::Publish(publish))
+            // QoS 1: surfaced and answered with exactly one PUBACK bearing its identifier
+            &&& accepts_acks(pre.state) && publish.qos == QualityOfService::AtLeastOnce ==> ev_post == ev_pre.push(PacketEvent::Publish(publish))
+                    && queued_ack(MqttPacket::Puback(PubackPacket { packet_id: pid, reason_code: PubackReasonCode::Success, reason_string: None, user_properties: None }))
+                    && post.qos2_incomplete_incoming_publishes@ == pre.qos2_incomplete_incoming_publishes@
+            // QoS 2: always answered with PUBREC; surfaced iff the identifier is not already awaiting its PUBREL
+            &&& accepts_acks(pre.state) && publish.qos == QualityOfService::ExactlyOnce ==>
+                    queued_ack(MqttPacket::Pubrec(PubrecPacket { packet_id: pid, reason_code: PubrecReasonCode::Success, reason_string: None, user_properties: None }))
+                    && post.qos2_incomplete_incoming_publishes@ == pre.qos2_incomplete_incoming_publishes@.insert(pid)
+                    && ev_post == (if pre.qos2_incomplete_incoming_publishes@.contains(pid) { ev_pre } else { ev_pre.push(PacketEvent::Publish(publish)) })
+        }),
+//@end
+
+//@fn gneiss-mqtt/src/protocol.rs ProtocolState::handle_pingresp props=C14,C11
+    ensures
+        ({
+            let ok = (old(self).state == ProtocolStateType::Connected || old(self).state == ProtocolStateType::PendingDisconnect)
+                && old(self).ping_timeout_timepoint is Some;
+            &&& ok ==> r is Ok && *final(self) == (ProtocolState { ping_timeout_timepoint: None, ..*old(self) })
+            &&& !ok ==> r is Err && *final(self) == *old(self)       // unsolicited PINGRESP is a protocol error
+        }),
+//@end
+
+//@fn gneiss-mqtt/src/protocol.rs ProtocolState::handle_disconnect props=C11
+    requires *packet is Disconnect,
+    ensures *final(self) == *old(self), r is Err,
+        final(context).current_time == old(context).current_time,
+        (accepts_acks(old(self).state) && old(self).protocol_version != ProtocolVersion::Mqtt311)
+            ==> final(context).packet_events@ == old(context).packet_events@.push(PacketEvent::Disconnect(packet->Disconnect_0)),
+        !(accepts_acks(old(self).state) && old(self).protocol_version != ProtocolVersion::Mqtt311)
+            ==> final(context).packet_events@ == old(context).packet_events@,
+//@end
+
+//@fn gneiss-mqtt/src/protocol.rs ProtocolState::handle_auth props=C11
+    ensures *final(self) == *old(self), r is Err, final(_arg2).packet_events@ == old(_arg2).packet_events@,
+//@end
+}
 } // verus!
 fn main() {}
